@@ -134,6 +134,32 @@ func actionsV(a commands.Actions) string {
 	return vl(va(ex), vbool(a&commands.Prev != 0), vbool(a&commands.Next != 0), vbool(a&commands.Complete != 0))
 }
 
+// urlLine: `url <attribute>` -> the components the slot decoder produced for it.
+func urlLine(r *common.Run, attr string, u *url.URL) {
+	if attr == "" || u == nil {
+		return
+	}
+	d := func(s string) string {
+		if s == "" {
+			return "-"
+		}
+		return common.Hex([]byte(s))
+	}
+	auth := u.Host
+	if u.User != nil {
+		auth = u.User.String() + "@" + auth
+	}
+	path := u.EscapedPath()
+	if u.Opaque != "" {
+		path = u.Opaque
+	}
+	q := "!"
+	if u.RawQuery != "" || u.ForceQuery {
+		q = d(u.RawQuery)
+	}
+	r.Line("url "+d(attr), fmt.Sprintf("%s %s %s %s %s", d(u.Scheme), d(auth), d(path), q, d(u.EscapedFragment())))
+}
+
 func urlS(u *url.URL) string {
 	if u == nil {
 		return ""
@@ -171,7 +197,57 @@ func delayV(d *delay.Delay) string {
 }
 
 // modelCases2 emits the correspondence lines of the second batch.
+// urlSweep: every combination of scheme x path x query x fragment (and every user-info x
+// host) of the URL pools through a real slot: written by TokenReader, decoded by
+// UnmarshalXML, components compared with the model's split of the attribute.
+func urlSweep(c *ctx) {
+	r := c.r
+	r.Mark("case url sweep")
+	one := func(raw string) {
+		u, err := url.Parse(raw)
+		if err != nil {
+			return
+		}
+		s := upload.Slot{GetURL: u}
+		out, toks := written(func() xml.TokenReader { return s.TokenReader() })
+		if toks == nil {
+			return
+		}
+		var d upload.Slot
+		if err := xml.Unmarshal(out, &d); err != nil {
+			r.Line("url "+common.Hex([]byte(u.String())), "ERR")
+			return
+		}
+		urlLine(r, u.String(), d.GetURL)
+	}
+	for _, sc := range urlSchemes {
+		for _, p := range urlPaths {
+			for _, q := range urlQueries {
+				for _, f := range urlFragments {
+					switch sc {
+					case "mailto:":
+						one(sc + "user@example.net" + q + f)
+					case "":
+						one(p + q + f)
+					default:
+						one(sc + "example.net" + p + q + f)
+					}
+				}
+			}
+		}
+	}
+	for _, us := range urlUsers {
+		for _, h := range urlHosts {
+			if h != "" {
+				one("https://" + us + h + "/p?q#f")
+				one("//" + us + h)
+			}
+		}
+	}
+}
+
 func modelCases2(c *ctx) {
+	urlSweep(c)
 	r := c.r
 	n := r.Pick(120, 1500)
 	for k := 0; k < n; k++ {
@@ -275,14 +351,7 @@ func modelCases2(c *ctx) {
 		}
 		// upload slot
 		{
-			urls := []string{"", "https://example.net/up/a%20b?x=1&y=2", "http://[::1]:8080/p"}
-			var s upload.Slot
-			if u := urls[g.intn(len(urls))]; u != "" {
-				s.PutURL, _ = url.Parse(u)
-			}
-			if u := urls[g.intn(len(urls))]; u != "" {
-				s.GetURL, _ = url.Parse(u)
-			}
+			s := upload.Slot{PutURL: g.url(), GetURL: g.url()}
 			names := []string{"Authorization", "Cookie", "Expires", "cookie", "X-Other"}
 			for m := g.count(3); m > 0; m-- {
 				if s.Header == nil {
@@ -347,6 +416,12 @@ func modelCases2(c *ctx) {
 				c.pair("slot", vl(va(urlS(s.PutURL)), vlist(hs), va(urlS(s.GetURL))), out, toks, "", func() (string, error) {
 					return slotDec(out, order)
 				})
+				// the components the decoder took from the two URL attributes (Model/Url.lean)
+				var ds upload.Slot
+				if err := xml.Unmarshal(out, &ds); err == nil {
+					urlLine(r, urlS(s.PutURL), ds.PutURL)
+					urlLine(r, urlS(s.GetURL), ds.GetURL)
+				}
 				// a slot as a server might send it: with headers the client must ignore
 				foreign := []hv{{"X-Other", "v"}, {"Cookie", "c<&>"}, {"Content-Type", "text/plain"}}
 				var doc bytes.Buffer
